@@ -116,6 +116,9 @@ func RunC01(c *Ctx, r *Report) {
 	c.objectKeyBindingRules(r, prefix)
 	// rule 3: fallbacks
 	c.fallbackRules(r, prefix, a)
+	c.unprotectGateRule(r, prefix+"unprotect-gate", a)
+	c.cipherNoStateRule(r, prefix+"cipher-no-state")
+	c.registryLengthRules(r, prefix)
 	// rule 4: both header arms
 	c.headerArmRules(r, prefix, a)
 	// rule 5: inner chain linkage
@@ -478,4 +481,77 @@ func (c *Ctx) innerChainRules(r *Report, prefix string, a *ikeAnchors) {
 		}
 	}
 	r.Check(okStrip, rule, "ike.decryptMsg: strips exactly L octets", c.Pos(dm.Pos()), d3, d3)
+}
+
+// unprotectGateRule: DecodeDecrypt hands back a message without verifying it only when the message carries
+// no leading SK payload. Every success return is either inside the region guarded by "first payload is SK"
+// and then behind the nil-error edge of decryptMsg, or outside it and then dominated by the evaluation of
+// that very test (so that no other condition - an exchange type, a flag, a message id - can open a way
+// around the checksum).
+func (c *Ctx) unprotectGateRule(r *Report, rule string, a *ikeAnchors) {
+	r.Rule(rule, "every success return of DecodeDecrypt is behind the nil-error edge of decryptMsg, or is reached only through the evaluation of the 'first payload is SK' test on its false side; no other condition decides whether a datagram is unprotected", 1)
+	dd := a.DecodeDecrypt
+	dcalls := c.callsTo(dd, a.decryptMsg)
+	if len(dcalls) != 1 {
+		r.bad(rule, "ike.DecodeDecrypt: decryptMsg call", c.Pos(dd.Pos()), fmt.Sprintf("expected one call, found %d", len(dcalls)))
+		return
+	}
+	call := dcalls[0]
+	skConst := c.constInt("message", "TypeSK")
+	var first, skTrue *ssa.BasicBlock // block of the first test of the gate; successor on the SK side
+	for b := call.Block(); b != nil; b = b.Idom() {
+		if len(b.Preds) != 1 {
+			continue
+		}
+		p := b.Preds[0]
+		iff, ok := p.Instrs[len(p.Instrs)-1].(*ssa.If)
+		if !ok || p.Succs[0] != b {
+			continue
+		}
+		cond, ok := iff.Cond.(*ssa.BinOp)
+		if !ok {
+			continue
+		}
+		switch cond.Op {
+		case token.EQL:
+			if cl, ok := cond.X.(*ssa.Call); ok && cl.Call.IsInvoke() && cl.Call.Method.Name() == "Type" {
+				if k, ok := cond.Y.(*ssa.Const); ok && skConst != nil {
+					if v, _ := constInt64(k.Value); v == *skConst {
+						skTrue = b
+						if first == nil {
+							first = p
+						}
+					}
+				}
+			}
+		case token.GTR:
+			if cl, ok := cond.X.(*ssa.Call); ok {
+				if bi, ok := cl.Call.Value.(*ssa.Builtin); ok && bi.Name() == "len" {
+					first = p // the length test precedes the type test
+				}
+			}
+		}
+	}
+	if skTrue == nil || first == nil {
+		r.undecided(rule, "ike.DecodeDecrypt: SK gate", c.InstrPos(call), "cannot find the 'first payload is SK' test that guards decryptMsg")
+		return
+	}
+	errV := errResult(call)
+	n := 0
+	for _, b := range dd.Blocks {
+		ret, ok := b.Instrs[len(b.Instrs)-1].(*ssa.Return)
+		if !ok || len(ret.Results) != 2 || !isNilConst(ret.Results[1]) || isNilConst(ret.Results[0]) {
+			continue
+		}
+		n++
+		key := fmt.Sprintf("ike.DecodeDecrypt: success return #%d", n)
+		if skTrue.Dominates(b) {
+			r.Check(errV != nil && onNilErrEdge(errV, b), rule, key, c.InstrPos(ret), "inside the SK region, behind decryptMsg's nil-error edge", "a success return inside the SK region is not behind the nil-error edge of decryptMsg: a protected message is returned unverified")
+		} else {
+			r.Check(first.Dominates(b), rule, key, c.InstrPos(ret), "reached only through the SK test (false side or after decryptMsg succeeded)", "a success return is reachable without evaluating the 'first payload is SK' test: another condition lets a datagram bypass verification")
+		}
+	}
+	if n == 0 {
+		r.bad(rule, "ike.DecodeDecrypt: success returns", c.Pos(dd.Pos()), "none found")
+	}
 }
